@@ -357,9 +357,12 @@ ASetConf(f) ==
     /\ Log(Step("setconf", 0, 0, "", 0, FALSE, PrintId(f), f, 0, {}, idx, ""))
 
 \* the identifier of f with its terms listed in the order p
+\* (written and read once per (p, f): the table is a constant, TLC evaluates it a single time)
+IdTable == TLCEval([p \in Perms |-> TLCEval([f \in Configs |->
+               LET text == JoinTerms(p, f) IN TLCEval([text |-> text, got |-> ParseId(text)])])])
 AFromString(p, f) ==
-    LET text == JoinTerms(p, f)
-        got  == ParseId(text)
+    LET text == IdTable[p][f].text
+        got  == IdTable[p][f].got
     IN  /\ got.ok
         /\ SetAll(got.cfg)
         /\ Log(Step("fromstring", 0, 0, "", 0, FALSE, text, got.cfg, 0, {}, idx, ""))
